@@ -938,11 +938,11 @@ func (d *fcDriver) run() {
 		J: fcCP{0, gr}, F: fcCP{0, gr}, Bal: bal, Pruned: [][]int{}}
 	out, det := fcGuarded(func() {
 		cp := common.Checkpoint{Epoch: 0, Root: d.genesisRoot}
-		d.t.arr = proto.NewProtoArray(common.Root{}, d.genesisRoot, 0, 0, 0, proto.NodeSinkFn(d.t.sink))
-		fc, err := forkchoice.NewForkChoice(spec, cp, cp, d.genesisRoot, 0, d.t.arr, proto.NewProtoVoteStore(spec), fcGweis(bal))
+		fc, err := proto.NewProtoForkChoice(spec, cp, cp, d.genesisRoot, 0, common.Root{}, fcGweis(bal), proto.NodeSinkFn(d.t.sink))
 		init.Ret = &fcRet{Ok: b2i(err == nil)}
 		if err == nil {
 			d.t.fc = fc
+			d.t.arr = fc.(*forkchoice.ProtoForkChoice).VerifGraph().(*proto.ProtoArray)
 		} else {
 			init.Detail = err.Error()
 		}
